@@ -84,6 +84,14 @@ def iterCols (d : Dims) (minRow maxRow minCol maxCol : Option Int) : PyM (List (
   else if maxCol ≥ d.cols then .error .IndexError
   else .ok ((rangeIncl minCol maxCol).map (fun c => (rangeIncl minRow maxRow).map (fun r => (r, c))))
 
+/-- what `iter_rows` yields once its bounds prefix has accepted `(minRow, maxRow, minCol, maxCol)` -/
+def rowsOf (b : Int × Int × Int × Int) : List (List (Int × Int)) :=
+  (rangeIncl b.1 b.2.1).map (fun r => (rangeIncl b.2.2.1 b.2.2.2).map (fun c => (r, c)))
+
+/-- … and `iter_cols` (columns outside, rows inside) -/
+def colsOf (b : Int × Int × Int × Int) : List (List (Int × Int)) :=
+  (rangeIncl b.2.2.1 b.2.2.2).map (fun c => (rangeIncl b.1 b.2.1).map (fun r => (r, c)))
+
 /-- the pinned `x or default` idiom: `None` and `0` both select the default. -/
 def orDefault (x : Option Int) (dflt : Int) : Int :=
   match x with
